@@ -551,9 +551,18 @@ static void asyncTaskScenario(int id, int timeline, int bodyDelayUs, const std::
       double w0 = vh::now();
       T v       = at->get();
       bool ok   = R<T>::eq(v, id);
-      std::lock_guard<std::mutex> g(g_stallMtx);
-      g_stalls.push_back(c2 + " [finished() still false after 12 s while the caller only slept; get() then " + (ok ? "returned the right value" : "returned a WRONG value") + " after " +
-                         std::to_string((vh::now() - w0) * 1000.0) + " ms]");
+      size_t nStalls;
+      {
+        std::lock_guard<std::mutex> g(g_stallMtx);
+        g_stalls.push_back(c2 + " [finished() still false after 12 s while the caller only slept; get() then " + (ok ? "returned the right value" : "returned a WRONG value") + " after " +
+                           std::to_string((vh::now() - w0) * 1000.0) + " ms]");
+        nStalls = g_stalls.size();
+      }
+      // every stall costs 12 s: a tree on which tasks do not report completion would take hours
+      if (nStalls >= 6 && g_pollScenarios.load() < 100 * (long)nStalls) {
+        judgeStalls();
+        vh::abandonChild();
+      }
       break;
     }
     VH_CHECK(at->valid(), "C02:AsyncTask:valid-after-finished", "valid() false although finished() was true", c2);
